@@ -19,23 +19,50 @@ import (
 
 const twinShift = 8
 
+// the service-specific names occur in the Request-URI only; the listener address and
+// its alias also in Via / Route / Record-Route. Random generated content elsewhere
+// (a tel: number, a token) must never be touched by the twin mapping.
+// headOnly applies f to the header section of a message and leaves the body bytes alone
+// (a binary body may contain any byte sequence, also one that looks like a case id).
+func headOnly(raw []byte, f func([]byte) []byte) []byte {
+	i := bytes.Index(raw, []byte("\r\n\r\n"))
+	if i < 0 {
+		return f(raw)
+	}
+	out := append([]byte{}, f(raw[:i+4])...)
+	return append(out, raw[i+4:]...)
+}
+
+func svcNamePairs(a, b int) []string {
+	var r []string
+	for _, p := range []string{"svc%d.verif.test", "users%d.verif.test", "rx%d-", "sos.s%d", "tel:+99%d"} {
+		r = append(r, fmt.Sprintf(p, a), fmt.Sprintf(p, b))
+	}
+	return r
+}
+
+func firstLineAndRest(s string) (string, string) {
+	if i := strings.Index(s, "\r\n"); i >= 0 {
+		return s[:i], s[i:]
+	}
+	return s, ""
+}
+
 func twinRewrite(w *wire.World, raw []byte, a int) []byte {
 	b := a + twinShift
-	r := strings.NewReplacer(
+	first, rest := firstLineAndRest(string(raw))
+	addr := strings.NewReplacer(
 		w.Svcs[a].IP+":", w.Svcs[b].IP+":",
 		w.Svcs[a].IP+";", w.Svcs[b].IP+";",
 		w.Svcs[a].IP+">", w.Svcs[b].IP+">",
 		w.Svcs[a].IP+" ", w.Svcs[b].IP+" ",
 		w.Svcs[a].IP+",", w.Svcs[b].IP+",",
 		w.Svcs[a].IP+"\r", w.Svcs[b].IP+"\r",
-		fmt.Sprintf("svc%d.verif.test", a), fmt.Sprintf("svc%d.verif.test", b),
-		fmt.Sprintf("users%d.verif.test", a), fmt.Sprintf("users%d.verif.test", b),
-		fmt.Sprintf("rx%d-", a), fmt.Sprintf("rx%d-", b),
-		fmt.Sprintf("sos.s%d", a), fmt.Sprintf("sos.s%d", b),
-		fmt.Sprintf("tel:+99%d", a), fmt.Sprintf("tel:+99%d", b),
-		fmt.Sprintf("alias%d.verif.test", a), fmt.Sprintf("alias%d.verif.test", b),
+		wire.AliasName(a), wire.AliasName(b),
 	)
-	return []byte(r.Replace(string(raw)))
+	first = strings.NewReplacer(svcNamePairs(a, b)...).Replace(addr.Replace(first + "\r"))
+	first = strings.TrimSuffix(first, "\r")
+	return []byte(first + addr.Replace(rest))
 }
 
 var proxyBranch = regexp.MustCompile(`branch=z9hG4bK[0-9a-f]{12}`)
@@ -44,12 +71,14 @@ var proxyBranch = regexp.MustCompile(`branch=z9hG4bK[0-9a-f]{12}`)
 // between the twins' TCP connections
 var stampedRport = regexp.MustCompile(`;rport=[0-9]+`)
 
-// twinNorm removes what legitimately differs between the twins from an output.
-func twinNorm(w *wire.World, s string, svc int) string {
+// twinNorm removes what legitimately differs between the twins from one header value
+// (startLine = true for the first line, where the service names live).
+func twinNorm(w *wire.World, s string, svc int, startLine bool) string {
 	base := svc % twinShift
 	s = strings.ReplaceAll(s, w.Svcs[svc].IP, "LISTENER")
-	for _, p := range []string{"svc%d.verif.test", "users%d.verif.test", "rx%d-", "sos.s%d", "tel:+99%d", "alias%d.verif.test"} {
-		s = strings.ReplaceAll(s, fmt.Sprintf(p, svc), fmt.Sprintf(p, base))
+	s = strings.ReplaceAll(s, wire.AliasName(svc), wire.AliasName(base))
+	if startLine {
+		s = strings.NewReplacer(svcNamePairs(svc, base)...).Replace(s)
 	}
 	return s
 }
@@ -169,11 +198,11 @@ func twinProject(w *wire.World, o *wire.Obs, svc int, id string) twinOut {
 		t.start = "UNREADABLE"
 		return t
 	}
-	tn := func(s string) string { return strings.ReplaceAll(twinNorm(w, s, svc), id, "CASE") }
+	tn := func(s string) string { return strings.ReplaceAll(twinNorm(w, s, svc, false), id, "CASE") }
 	norm := func(s string) string {
 		return stampedRport.ReplaceAllString(proxyBranch.ReplaceAllString(tn(s), "branch=*"), ";rport=*")
 	}
-	t.start = tn(o.Msg.Start)
+	t.start = strings.ReplaceAll(twinNorm(w, o.Msg.Start, svc, true), id, "CASE")
 	for _, e := range o.Msg.List("via") {
 		t.via = append(t.via, norm(e))
 	}
@@ -272,13 +301,13 @@ func scenarioTwin() int {
 			a := c.path.Svc
 			idA := fmt.Sprintf("%sA%d", c.id, k)
 			idB := fmt.Sprintf("%sB%d", c.id, k)
-			rawA := bytes.ReplaceAll(c.in.Bytes(), []byte(c.id), []byte(idA))
+			rawA := headOnly(c.in.Bytes(), func(h []byte) []byte { return bytes.ReplaceAll(h, []byte(c.id), []byte(idA)) })
 			mA, err := sip.Read(rawA)
 			if err != nil {
 				continue
 			}
 			mB, kinds := respell(g, mA)
-			rawB := bytes.ReplaceAll(twinRewrite(w, mB.Bytes(), a), []byte(idA), []byte(idB))
+			rawB := headOnly(mB.Bytes(), func(h []byte) []byte { return bytes.ReplaceAll(twinRewrite(w, h, a), []byte(idA), []byte(idB)) })
 			pathA := c.path
 			pathB := wire.Path{UA: c.path.UA, Svc: a + twinShift, Proto: c.path.Proto}
 			send := func(p wire.Path, raw []byte, id string) []*wire.Obs {
